@@ -43,6 +43,9 @@ def subspaces(tier):
     out += C.structure_subspaces(D.shapes(3, 3), 2, True, only_flexible=True, filter="none", probe=True)
     out += C.structure_subspaces(D.shapes(3, 3), 2, True, only_flexible=True, filter="default_pair")
     out += C.structure_subspaces([s for s in s4 if sum(s) >= 3], 2, False, filter="none", probe=True)
+    for f in ("none", "default_pair"):
+        out += C.wide_subspaces(filter=f)
+    out += C.wide_subspaces(filter="none", probe=True, pairs=((1, 8),))
     out += C.structure_subspaces(D.shapes(3, 3) + [(2, 2)], 2, False, filter="none", observed="atj")
     out += C.structure_subspaces(D.shapes(3, 3), 2, False, canonical=True, filter="default_pair", observed="disj")
     if tier == "thorough":
